@@ -23,9 +23,11 @@ class PRec:
 # a pattern may be written.
 MALFORMED = {
     "rest-not-last-struct": ["S { .., a: 1 }", "S { a: 1, .., b: 2 }", "_ { .., a: 1 }", "S { a: 1, .., }",
-                             "m::S { .., .. }", "_ { a: 1, .., b: _ }"],
-    "rest-not-last-set": ["#(1, .., 2)", "#(.., 1)", "#(1, .., )", "#(.., ..)", "#(_, .., _)"],
-    "rest-not-last-map": ["#{ .., \"k\": 1 }", "#{ \"a\": 1, .., \"k\": 1 }", "#{ \"a\": 1, .., }", "#{ .., }"],
+                             "m::S { .., .. }", "_ { a: 1, .., b: _ }",
+                             # what follows the `..` is long and not ASCII (an error message that quotes or abbreviates it has to cut it somewhere)
+                             "S { .., name: \"日本語日本語日本語日本語日本語日本語\" }", "_ { .., größe_größe_größe_größe: \"é\" }", "S { a: 1, .., b: \"aé日😀aé日😀aé日😀aé日😀aé日😀\" }"],
+    "rest-not-last-set": ["#(1, .., 2)", "#(.., 1)", "#(1, .., )", "#(.., ..)", "#(_, .., _)", "#(.., \"日本語日本語日本語日本語日本語日本語\")", "#(.., \"a日本語日本語日本語日本語日本語日本語\", 2)"],
+    "rest-not-last-map": ["#{ .., \"k\": 1 }", "#{ \"a\": 1, .., \"k\": 1 }", "#{ \"a\": 1, .., }", "#{ .., }", "#{ .., \"日本語日本語日本語日本語日本語日本語\": 1 }", "#{ .., \"ab\": \"日本語日本語日本語日本語日本語日本語\" }"],
     "tuple-index-mismatch": ["(1: 5)", "(0: 1, 0: 2)", "Some(1: 2)", "(5, 0: 1)", "E::T(0: 1, 2: 3)", "(*1: 5)",
                              "(0: 1, 1.len(): 2, 3: 4)"],
     "tuple-named-index": ["(x: 1)", "Some(*f: 2)", "(0: 1, name: 2)", "Some(*inner.0: 7)", "(0: 1, *second.1: 3)", "(*x.0.len(): 1)", "(**a.0: 1)",
@@ -34,7 +36,7 @@ MALFORMED = {
     "eq-other": ["= 5", "=> 5", "= = 5", "=! 5", "= \"x\"", "=- 1"],
     "operator-without-operand": [">", "<=", "==", "!=", "=~", "<", "!"],
     "trailing-tokens": ["1 2", "Some(1) 2", "\"a\" \"b\"", "S { a: 1 } S", "_ _", "[1] [2]", "> 1 2", "#(1) 1",
-                        "None None", "1..2 3", "|x| x 1 ;"],
+                        "None None", "1..2 3", "|x| x 1 ;", "1 \"日本語日本語日本語日本語日本語日本語\"", "\"aé日😀aé日😀aé日😀aé日😀aé日😀\" \"b\""],
     "missing-colon-or-comma": ["S { a 1 }", "S { a: 1 b: 2 }", "[1 2]", "#(1 2)", "#{ \"k\" 1 }", "(1 2)", "Some(1 2)"],
     "bad-field-path": ["S { a.: 1 }", "S { .a: 1 }", "S { a.b.: 1 }", "S { a[]: 1 }", "S { a.1.5e3: 1 }", "S { a.-1: 1 }",
                        "S { -1: 1 }", "S { a.fn: 1 }", "S { 1.0x: 2 }", "S { a.0.0f32: 1 }", "_ { self: 1, .. }"],
